@@ -9,7 +9,7 @@ import GfsGen.Facts
 import GfsModel.ExpectedSrc
 
 namespace Gfs.Props.C05
-open Gfs Gfs.Spec Gfs.Proofs
+open Gfs Gfs.Spec Gfs.Proofs Gfs.Proofs.Order
 
 /-- the cleaned path of an input path, as (directory, file name) -/
 def itemOf (p : Bytes) : FileItem := ⟨(pathSplit (pathClean p)).1, (pathSplit (pathClean p)).2⟩
